@@ -33,8 +33,8 @@ claimed = {
           "byte-faithful relay, real timeouts/resets and chunking belong to net/http/httputil.ReverseProxy + http.Transport and are outside the reach of the encoder: not claimed"),
  "C06": ("6 C06", "Bounded symbolic execution of the real Buffer.ServeHTTP/copyRequest with the real multibuf and the interpreted standard-library readers: request bodies of 0/2/5 bytes (thorough up to 8) in chunks of 1..3, declared or chunked, request thresholds symbolic around the body size (in memory and spilled to the ghost file), a handler that reads all or a prefix and mutates URL, headers and method, symbolic retries: every attempt sees the original method, URL, headers, true Content-Length, no Transfer-Encoding, and the complete body from byte 0; attempts and the client's request share no URL.",
           "concrete small payload bytes (sizes and thresholds symbolic); multi-megabyte bodies are represented by the threshold relations only"),
- "C07": ("6 C07", "Same harness, response side: per attempt the handler answers no status / 200 / 502 / 204 (thorough also 404) with 0..2 writes, response thresholds symbolic (memory and spill), POST/HEAD, symbolic retry decisions: the client gets exactly one WriteHeader with the final attempt's status (200 when none was chosen), the final attempt's headers and exactly its body bytes, nothing from discarded attempts; handler invocations <= retries+1.",
-          "retry decisions are an arbitrary predicate here; the retry-expression grammar (threshold.go) and the cap of 11 attempts are not claimed"),
+ "C07": ("6 C07", "Same harness, response side: per attempt the handler answers no status / 200 / 502 / 204 (thorough also 404) with 0..2 writes, response thresholds symbolic (memory and spill), POST/HEAD, symbolic retry decisions: the client gets exactly one WriteHeader with the final attempt's status (200 when none was chosen), the final attempt's headers and exactly its body bytes, nothing from discarded attempts. Retry expression: operator table captured from parseExpression, the six comparisons over Attempts/ResponseCode, RequestMethod, IsNetworkError, and/or/nesting equal the standard reading for symbolic operands; retry loop with the real predicate `ResponseCode() != 200 && Attempts() < limit` (limit symbolic up to 13): invocations follow the expression judged on the status each attempt produced (200 if none) and never exceed 11.",
+          "string->AST parsing of vulcand/predicate is outside; response sizes up to 6 bytes"),
  "C14": ("6 C14", "TTL map of capacity 2/3 filled through its API with symbolic ttls at symbolic instants, then Set of a new key at a symbolic later instant: exactly one entry is forgotten — an expired one if any exists, else the one nearest to expiry — all other entries (value, expiry) unchanged; Set of an existing key changes only that key; representation consistency asserted before and after; connection-limiter frame condition (other sources' entries untouched, decision depends on own count only).",
           "capacity <= 3; the rate limiter's end-to-end self-composition (O1) runs in the thorough tier only"),
  "C15": ("6 C15", "Same buffer harness with the ghost file table under the real multibuf: request over the configured maximum (declared or discovered while reading a chunked body) yields 413 and the handler is never invoked; a response over its maximum yields an error status and none of its bytes; after ServeHTTP returns no spill file exists, for success, errors, over-limit, retries, HEAD and 204.",
